@@ -162,6 +162,23 @@ def Trx.getTxFreq (self : Trx) (fn : Nat) : Except PyExc (Option Int) :=
     | .error e => .error e
     | .ok (_, tx) => .ok (some tx)
 
+/-- operations that change the hopping configuration of one `Transceiver` object (TRXC `SETFH`, power-off) -/
+inductive FhOp where
+  /-- `enable_fh(hsn, maio, ma)`; an exception of the constructor leaves the object as it was -/
+  | enable (hsn maio : Int) (ma : List (Int × Int))
+  /-- `disable_fh()` -/
+  | disable
+
+def Trx.applyOp (t : Trx) : FhOp → Trx
+  | .enable hsn maio ma =>
+    match t.enableFh hsn maio ma with
+    | .ok t' => t'
+    | .error _ => t
+  | .disable => t.disableFh
+
+/-- a history of configuration operations on one object -/
+def Trx.applyOps (t : Trx) (ops : List FhOp) : Trx := ops.foldl Trx.applyOp t
+
 /-! ## Firmware side -/
 
 /-- Outcomes of the C code that are undefined behaviour. -/
